@@ -8,7 +8,11 @@ out-of-range lines), `span-hull` (lark's actual metas vs the hull of the lexer t
 `span-collector` (the self-hosted parser's ErrorCollector).
 Search (real code only): spans vs CPython's tokenizer (token-aligned, holds exactly the subtree's named terminals, token
 spans slice to the token text), child ⊆ parent and sibling order, quotation marks exactly [begin, end) of the reported
-line — on fresh trees and again on trees restored from the on-disk cache.
+line — on fresh trees and again on trees restored from the on-disk cache; stored files with CRLF / bare CR (the text on
+disk is the reference), the same text as an in-memory module, statement-free modules, edits within one mtime second.
+Proved besides the renderer arithmetic (Props/C16.lean): the region a recorded span delimits is first token … last token and
+holds exactly the consumed tokens (span_region, span_holds_exactly_own_tokens; ops tokswf/iregion/itoks of span-hull), and
+the end-to-end statement tree_quotation (position arithmetic + line loading, no hypothesis about the file left).
 """
 from __future__ import annotations
 
@@ -643,6 +647,7 @@ def add_finding(res: SearchResult, label: str, key: str, path: str, suffix: str,
 
 
 _GRAMMAR_SETS: dict[str, Any] = {}
+_CR_COMMENTS_REPORTED = [0]
 _LEX_CACHE: dict[str, Any] = {}
 
 
@@ -755,9 +760,11 @@ def check_tree(label: str, src: str, root: Any, literals: set[str], res: SearchR
 			elif e.is_terminal:
 				if text != e.value:
 					find('token-slice', f'token {path} = {e.value!r} but its span {s} holds {text!r}', path)
-				elif e.name == 'COMMENT' and py_end(en) != en and not cr_comment_reported[0]:
-					# the comment's span reaches into the line break: the CR of a CRLF line end is part of the token
+				elif e.name == 'COMMENT' and py_end(en) != en and not cr_comment_reported[0] and _CR_COMMENTS_REPORTED[0] < 3:
+					# the comment's span reaches into the line break: the CR of a CRLF line end is part of the token (reported for
+					# the first three modules of a run only: the findings of one key must not use up the report budget of the search)
 					cr_comment_reported[0] = True
+					_CR_COMMENTS_REPORTED[0] += 1
 					find('comment-span-includes-cr', f'comment {path} = {e.value!r}: its span {s} ends between the CR and the LF of the CRLF line end (the line break is cut in two; the comment text carries the CR)', path)
 			if text is not None and not e.is_terminal and lex is not None:
 				# the span begins at a token the node's own rule can begin with and ends at one it can end with (a span that
@@ -970,6 +977,7 @@ def search_spans(ctx: Ctx) -> tuple[SearchResult, SearchResult]:
 	exercised = 0
 	_FRESH_SEEN.clear()
 	_COLD_QUOTES.clear()
+	_CR_COMMENTS_REPORTED[0] = 0
 	for mp in diskproj.bounded(mods, *diskproj.budgets(ctx), label=lambda m: pr.labels.get(m, m)):
 		sampled: list[str] | None = None
 		cold_spans: dict[str, Any] = {}
@@ -1033,7 +1041,7 @@ def search_spans(ctx: Ctx) -> tuple[SearchResult, SearchResult]:
 	resq.distinct = resq.cases
 	if not exercised and not res.findings and not resq.findings:
 		raise common.InfraError('no module was restored from the on-disk cache: the restored half of the search did not run')
-	res.note = 'every tree span begins at a token of FIRST(rule) and ends at a token of LAST(rule) (the generated, Lean-checked tables of translate/gen_grammar_first.py; token types from the parser\'s lexer); the cache-restored tree is compared with the cold parse node by node (every entry: span; sampled nodes: printed quotation); history: every 4th generated module is rewritten after its tree was cached (mtime changed only in its fractional second) and re-parsed by a fresh App on the same cache directory — the spans must delimit the current text; restrictions: positions inside a CPython STRING token are exempt from the boundary/content checks (quoted annotations are lexed by the grammar as QUOTE NAME QUOTE); CPython NAME tokens that are Python keywords or anonymous literals of grammar.lark, and `# type: ignore` comments (ignored by the grammar) need not be terminals; f-strings are folded into one STRING; the end of a multi-line CPython STRING token is recomputed from its start and text (CPython 3.12 miscounts it after non-ASCII text); files with CR are excluded; for a text without final line feed (lines+1, 1) counts as end of input'
+	res.note = 'every tree span begins at a token of FIRST(rule) and ends at a token of LAST(rule) (the generated, Lean-checked tables of translate/gen_grammar_first.py; token types from the parser\'s lexer); the cache-restored tree is compared with the cold parse node by node (every entry: span; sampled nodes: printed quotation); history: every 4th generated module is rewritten after its tree was cached (mtime changed only in its fractional second) and re-parsed by a fresh App on the same cache directory — the spans must delimit the current text; restrictions: positions inside a CPython STRING token are exempt from the boundary/content checks (quoted annotations are lexed by the grammar as QUOTE NAME QUOTE); CPython NAME tokens that are Python keywords or anonymous literals of grammar.lark, and `# type: ignore` comments (ignored by the grammar) need not be terminals; f-strings are folded into one STRING; the end of a multi-line CPython STRING token is recomputed from its start and text (CPython 3.12 miscounts it after non-ASCII text); stored files with CRLF line ends, CRLF + long strings and bare CR inside a leading comment / string are generated (every 6th module): all clauses are evaluated against the text on disk, only a line feed ends a line; the positions of CPython are not used for texts with a bare CR (its tokenizer turns it into a line break); a comment token that swallowed the CR of a CRLF line end is reported under its own key comment-span-includes-cr (first three modules) and compared with CPython without the CR; the same text is parsed as an in-memory module WITHOUT appending a line feed (every 3rd generated module, all end-of-file variants, the statement-free modules) and must give the spans of the stored file path by path; statement-free modules (empty, blank, white space, comment only) go through the cold→warm history; real files with CR are excluded; for a text without final line feed (lines+1, 1) counts as end of input'
 	resq.note = 'an empty column range is shown by one caret at its position (the renderer\'s documented minimum); nodes whose span has no position (0,0,0,0) must not be quoted at all (regression of fix dc3e568); a None position or a raising renderer is a finding (regression of fix 46d0462); CRLF files excluded'
 	return res, resq
 
@@ -1179,7 +1187,7 @@ def run(ctx: Ctx) -> int:
 		},
 		assumptions=[
 			"interface of lark's LALR parse with propagate_positions (validated by span-hull on every run): token offsets left to right; a tree consumes a contiguous token interval [lo, hi) incl. filtered tokens, children consume sub-intervals in order; recorded span = (begin of token lo, end of token hi−1); _INDENT/_DEDENT borrow the offsets of the preceding _NEWLINE; every token is non-empty and lies inside the parsed text (op tokswf)",
-			'source files are valid UTF-8 without CR; a column is a character index (tabs and wide characters count as one)',
+			'source files are valid UTF-8; only a line feed ends a line (CR is an ordinary character for the parser, the renderer and the model; CPython as oracle is used only for texts without a bare CR); a column is a character index (tabs and wide characters count as one)',
 			'ErrorCollector._progress (repr of the token text) is not modelled; of ErrorRender.render the assembly and the quotation are modelled, the stack trace lines (regex over traceback text), the class path and str(node) are inputs',
 		],
 		trusted=['CPython tokenize as the independent oracle for token boundaries', "lark's LALR parser/contextual lexer/PythonIndenter (third-party)"])
